@@ -266,7 +266,7 @@ def build(tier, work, builder):
                   "paths (shared_ptr<std::string>) and message strings are identities"],
         "trusted_base": ["CBMC 6.11 (C front end + dfcc loop contracts; C++ front end for part B)", "stubs in contracts/C06/pos06.cpp: fixed-capacity std::vector<line_t>/std::vector<error_t>, path/message identities, ParserBuilder dispatch to the sliced ExpressionBuilder::add_position / AbstractBuilder::set_position"],
         "assumptions": ["flex calls YY_USER_ACTION once per matched token and the newline rules of lexer.l call tracker.newline once per consumed line break (generated scanner: not under contract; YY_USER_ACTION's text is checked to be the expected three statements)",
-                        "XML reader: that a label's text is parsed under the path state of that label element, and that location / branchpoint diagnostics are attributed to their element, IS under contract (c06_xpath_*: Path as a per-level (tag, sibling index) ghost); the text Path::str prints for a path state, and the per-block calls for declarations / parameters / system / queries, are not",
+                        "XML reader: that a label's text is parsed under the path state of that label element, and that location / branchpoint diagnostics are attributed to their element, IS under contract (c06_xpath_*: Path as a per-level (tag, sibling index) ghost); of the text Path::str prints for a path state only the sibling index is (c06_path_count: the real count helper + the structure of the switch; the ghost's index is that count); Path::push/pop on the real list of vectors and the per-block calls for declarations / parameters / system / queries are not",
                         "the type checker attaching the right expression position to each diagnostic (TypeChecker::handleError) is not under contract",
                         "sortedness of the table is maintained by add() (c06_add) and used in c06_find_unique by instantiation at the two needed index pairs; the step from adjacent to global monotonicity is the usual induction (meta)",
                         "tracker.position does not wrap (no unsigned overflow in ++position / position += n): history dependent, belongs to C15",
